@@ -325,9 +325,10 @@ func (s *SencBox) Size() uint64 {
 func (s *SencBox) calcSize() uint64 {
 	totalSize := uint64(boxHeaderSize + 8)
 	perSampleIVSize := uint64(s.GetPerSampleIVSize())
-	totalSize += perSampleIVSize * uint64(s.SampleCount)
+	nrSamples := s.nrSamplesWithData() // The same samples as written by EncodeSWNoHdr
+	totalSize += perSampleIVSize * uint64(nrSamples)
 	if s.Flags&UseSubSampleEncryption != 0 {
-		for i := 0; i < len(s.SubSamples) && i < int(s.SampleCount); i++ {
+		for i := 0; i < nrSamples; i++ {
 			totalSize += 2 + 6*uint64(len(s.SubSamples[i]))
 		}
 	}
@@ -358,6 +359,24 @@ func (s *SencBox) EncodeSW(sw bits.SliceWriter) error {
 	return err
 }
 
+// nrSamplesWithData returns the number of samples that have an IV and/or sub-sample entries to write.
+// It is SampleCount for a consistent box, and never more than the entries that are actually present.
+func (s *SencBox) nrSamplesWithData() int {
+	nr := int(s.SampleCount)
+	hasIVs := s.GetPerSampleIVSize() > 0
+	hasSubSamples := s.Flags&UseSubSampleEncryption != 0
+	if !hasIVs && !hasSubSamples {
+		return 0
+	}
+	if hasIVs && len(s.IVs) < nr {
+		nr = len(s.IVs)
+	}
+	if hasSubSamples && len(s.SubSamples) < nr {
+		nr = len(s.SubSamples)
+	}
+	return nr
+}
+
 // EncodeSWNoHdr encodes without header (useful for PIFF box)
 func (s *SencBox) EncodeSWNoHdr(sw bits.SliceWriter) error {
 	versionAndFlags := (uint32(s.Version) << 24) + s.Flags
@@ -368,7 +387,7 @@ func (s *SencBox) EncodeSWNoHdr(sw bits.SliceWriter) error {
 		return sw.AccError()
 	}
 	perSampleIVSize := s.GetPerSampleIVSize()
-	for i := 0; i < int(s.SampleCount); i++ {
+	for i := 0; i < s.nrSamplesWithData(); i++ {
 		if perSampleIVSize > 0 {
 			sw.WriteBytes(s.IVs[i])
 		}
@@ -400,7 +419,7 @@ func (s *SencBox) Info(w io.Writer, specificBoxLevels, indent, indentStep string
 	bd.write(" - perSampleIVSize: %d", perSampleIVSize)
 	level := getInfoLevel(s, specificBoxLevels)
 	if level > 0 && (perSampleIVSize > 0 || s.Flags&UseSubSampleEncryption != 0) {
-		for i := 0; i < int(s.SampleCount); i++ {
+		for i := 0; i < s.nrSamplesWithData(); i++ {
 			line := fmt.Sprintf(" - sample[%d]:", i+1)
 			if perSampleIVSize > 0 {
 				line += fmt.Sprintf(" iv=%s", hex.EncodeToString(s.IVs[i]))
